@@ -4,11 +4,13 @@ package main
 
 import (
 	"bytes"
+	"encoding/asn1"
 	"encoding/json"
 	"fmt"
 	"github.com/trustbloc/sidetree-go/pkg/hashing"
 	"hash/fnv"
 	"math"
+	"math/big"
 	"strings"
 	"sync"
 
@@ -875,16 +877,33 @@ func tamperJWS(sd, kind string, variant int) (string, int) {
 
 		return join(parts[0], parts[1], b64(sig)), 3
 	case "pad":
-		switch variant % 3 {
+		switch variant % 5 {
 		case 0:
 			sig = append(sig, 0)
 		case 1:
 			sig = append([]byte{0}, sig...)
 		case 2:
 			sig = append(sig, sig...)
+		case 3, 4:
+			// the same (r, s) in ASN.1 DER - what most signing hardware emits, not what a JWS carries - alone and followed
+			// by bytes of the sender's choice (Ed25519: the signature wrapped in an octet string)
+			type rs struct{ R, S *big.Int }
+
+			w := len(sig) / 2
+			der, _ := asn1.Marshal(rs{new(big.Int).SetBytes(sig[:w]), new(big.Int).SetBytes(sig[w:])})
+
+			if len(sig) == 64 && strings.Contains(string(hdr), "EdDSA") {
+				der, _ = asn1.Marshal(sig)
+			}
+
+			if variant%5 == 4 {
+				der = append(der, []byte("trailing bytes")...)
+			}
+
+			sig = der
 		}
 
-		return join(parts[0], parts[1], b64(sig)), 3
+		return join(parts[0], parts[1], b64(sig)), 5
 	case "payload_field":
 		var m map[string]interface{}
 
